@@ -19,19 +19,19 @@ type Opts struct {
 
 // Stats describes what one run covered.
 type Stats struct {
-	Ops      int            `json:"ops"`
-	Steps    int            `json:"steps"`
-	Switches int            `json:"switches"`
-	SimTime  time.Duration  `json:"sim_time_ns"`
-	Faults   map[string]int `json:"faults,omitempty"`
-	Probes   map[string]int `json:"probes,omitempty"`
-	Oracle   map[string]int `json:"oracle,omitempty"`
-	Class    string         `json:"class"` // key for counting distinct cases
-	Nontrivial bool         `json:"nontrivial"`
-	TraceHash uint64        `json:"trace_hash"`
-	LogHash   uint64        `json:"log_hash"`
-	Pairs     []string      `json:"-"`
-	Sample    any           `json:"sample,omitempty"`
+	Ops        int            `json:"ops"`
+	Steps      int            `json:"steps"`
+	Switches   int            `json:"switches"`
+	SimTime    time.Duration  `json:"sim_time_ns"`
+	Faults     map[string]int `json:"faults,omitempty"`
+	Probes     map[string]int `json:"probes,omitempty"`
+	Oracle     map[string]int `json:"oracle,omitempty"`
+	Class      string         `json:"class"` // key for counting distinct cases
+	Nontrivial bool           `json:"nontrivial"`
+	TraceHash  uint64         `json:"trace_hash"`
+	LogHash    uint64         `json:"log_hash"`
+	Pairs      []string       `json:"-"`
+	Sample     any            `json:"sample,omitempty"`
 }
 
 // Outcome is the result of one run.
@@ -52,6 +52,8 @@ type Property struct {
 	Sweep func(tier string) [][]uint32
 	// Budget in seconds of worker time per tier.
 	QuickSec, ThoroughSec int
+	// Recycle > 0: a worker process is replaced after that many runs (runs that leak process resources by design).
+	Recycle     int
 	Assumptions []string
 	Components  map[string]string
 }
